@@ -263,6 +263,19 @@ impl Monitor for C15 {
                 }
             }
         }
+        // (a4) the shape family and the repeated-operand family of eval_f64, on both evaluators
+        for (c, e) in shape_family(Ev::F64).into_iter().chain(repeated_operand_family(Ev::F64)) {
+            if ctx.mine() {
+                let s = c.replace("{h}", &format!("({})", e));
+                ctx.check(&Case::pair(Ev::F64, "f64-vs-number", &s, Val::F(0.0), &s, Val::NI(0)), &|c, st| {
+                    let v = self.judge(c, st);
+                    if let Verdict::Pass { .. } = v {
+                        st.inc("agree.shapes");
+                    }
+                    v
+                });
+            }
+        }
         // (b) shared f64 grammar: eval_number's numeric value equals eval_f64's result
         {
             let leaf = |rng: &mut Rng| -> Ast {
